@@ -126,6 +126,16 @@ def _func(ctx, rel, cfg, fname):
     return fn
 
 
+class Ctx_probe:
+    """a context that swallows the `unrecognised` of a function nobody has to understand (not one of the drivers)"""
+
+    def __init__(self, ctx):
+        self.tree = ctx.tree
+
+    def unrec(self, *a, **k):
+        pass
+
+
 def _body(ctx, rel, cfg, fname):
     fn = _func(ctx, rel, cfg, fname)
     return (None, None) if fn is None else (fn.body, fn.text)
@@ -198,11 +208,25 @@ def _r6(ctx):
                 ctx.unrec("R6", key, (CV, 0), f"how cv_y_ is created is not understood: {mk}")
 
 
+DRIVERS = ("Naunet::Solve", "Naunet::HandleError", "Naunet::Init", "Naunet::Reset")
+
+
 def _r1(ctx):
     n = 0
     for mth in ("dense", "sparse", "cusparse"):
-        for fname in ("Naunet::Solve", "Naunet::HandleError", "Naunet::Init", "Naunet::Reset"):
-            body, _ = _body(ctx, CV, {"general.method": mth}, fname)
+        # the drivers, and any other function of the file that stores the status of a CVode* call (a step of a driver moved into a
+        # private member that is not inlined because it returns from inside a loop keeps its own discipline)
+        sk = Skel(J.flatten(ctx.tree, CV, {"general.method": mth}))
+        others = [f.name for f in sk.funcs if f.name not in DRIVERS and f.name != "?" and re.search(r"=\s*CVode(?!Create|Free)\w*\s*\(", sk.plain(f.body))]
+        for fname in DRIVERS + tuple(dict.fromkeys(others)):
+            if fname in others:
+                probe = Ctx_probe(ctx)
+                body, _ = _body(probe, CV, {"general.method": mth}, fname)
+                if body is None:
+                    continue
+                n -= 1
+            else:
+                body, _ = _body(ctx, CV, {"general.method": mth}, fname)
             if body is None:
                 if fname in ("Naunet::Solve", "Naunet::HandleError"):
                     ctx.missing("R1", f"cvode/{mth}:{fname}", (CV, 0), "function not found")
@@ -961,4 +985,148 @@ BENIGN = [
         {"file": OD, "old": "y, 0.0, dt, dt, observer);", "new": "state, 0.0, dt, dt, budget);"},
         {"file": OD, "old": "        abund[i] = y[i];\n    }\n\n    return flag;", "new": "        abund[i] = state[i];\n    }\n\n    return flag;"}]},
     {"name": "wrapper-tests-inline", "file": OD, "old": "    int flag             = Solve(abund, dt, data);\n    if (flag == NAUNET_FAIL) {", "new": "    if (Solve(abund, dt, data) != NAUNET_SUCCESS) {"},
+]
+
+
+# ---------------------------------------------------------------- second catalogue: code moved into helpers, named constants, other loop shapes
+_HEAD = "int Naunet::HandleError(int cvflag,"
+_SOLVEHEAD = "int Naunet::Solve(realtype *ab, realtype dt, NaunetData *data) {\n    /* {% if general.method == \"dense\" or general.method == \"sparse\" -%} */\n"
+_LOOP = """        realtype logdt = log10(dt);
+        for (int step = 1; step < nsubsteps + 1; step++) {
+            realtype expo = logdt - (realtype)level;
+            expo += (realtype)level * (realtype)step / (realtype)nsubsteps;
+            realtype tout = pow(10.0, expo);
+
+            // printf("tout: %13.7e, step: %d, level: %d\\n", tout, step, level);
+            // realtype tcur = 0.0;
+            // cvflag = CVodeGetCurrentTime(cv_mem_, &tcur);
+            cvflag        = CVode(cv_mem_, tout, cv_y_, &t0, CV_NORMAL);
+            if (cvflag < 0) {
+                fprintf(errfp_,
+                        "CVode failed in Naunet! Flag = %d in the %dth substep "
+                        "of %dth level! \\n",
+                        cvflag, step, level);
+                if (level < 5) {
+                    fprintf(errfp_,
+                            "Tyring to fix the error in the next level\\n");
+                }
+                // fprintf(errfp_, "Failed to fix the error! cvflag = %d in the
+                // %dth substep! \\n", cvflag, i);
+                break;
+            }
+        }
+"""
+_EXPO = "            realtype expo = logdt - (realtype)level;\n            expo += (realtype)level * (realtype)step / (realtype)nsubsteps;\n            realtype tout = pow(10.0, expo);\n"
+_SUBSTEPTIME = ("static realtype SubstepTime(realtype logdt, int level, int step, int nsubsteps) {\n    realtype expo = logdt - (realtype)level;\n"
+                "    expo += (realtype)level * (realtype)step / (realtype)nsubsteps;\n    return pow(10.0, expo);\n}\n\n")
+_CHECKED = "    if (CheckFlag(&cvflag, \"%s\", 1, errfp_) == NAUNET_FAIL) {\n        return NAUNET_FAIL;\n    }\n"
+_SETUP = ("    N_VSetArrayPointer(ab, cv_y_);\n\n    cv_mem_ = CVodeCreate(CV_BDF, cv_sunctx_);\n\n    cvflag  = CVodeSetErrFile(cv_mem_, errfp_);\n" + _CHECKED % "CVodeSetErrFile"
+          + "\n    cvflag = CVodeSetMaxNumSteps(cv_mem_, mxsteps_);\n" + _CHECKED % "CVodeSetMaxNumSteps" + "\n    cvflag = CVodeInit(cv_mem_, Fex, t0, cv_y_);\n" + _CHECKED % "CVodeInit"
+          + "\n    cvflag = CVodeSStolerances(cv_mem_, rtol_, atol_);\n" + _CHECKED % "CVodeSStolerances" + "\n    cvflag = CVodeSetLinearSolver(cv_mem_, cv_ls_, cv_a_);\n" + _CHECKED % "CVodeSetLinearSolver"
+          + "\n    cvflag = CVodeSetJacFn(cv_mem_, Jac);\n" + _CHECKED % "CVodeSetJacFn" + "\n    cvflag = CVodeSetUserData(cv_mem_, data);\n" + _CHECKED % "CVodeSetUserData")
+_CALL_SETUP = "    if (PrepareIntegrator(ab, t0, data) == NAUNET_FAIL) {\n        return NAUNET_FAIL;\n    }\n"
+_CLASSIFIED = [
+    {"file": CV, "old": "        if (cvflag < 0 && cvflag > -5) {\n", "new": "        const int kind = Classify(cvflag);\n        if (kind == 1) {\n"},
+    {"file": CV, "old": "        } else if (cvflag == -6) {\n", "new": "        } else if (kind == 2) {\n"},
+    {"file": CV, "old": "        } else if (cvflag < 0) {\n            fprintf(\n                errfp_,\n                \"The error cannot", "new": "        } else if (kind == 3) {\n            fprintf(\n                errfp_,\n                \"The error cannot"}]
+
+
+def _subcycle(sig, tref):
+    """the sub-step loop as a member function; `sig` decides how the time reached is passed"""
+    return ("int Naunet::SubCycle(" + sig + ") {\n    int cvflag     = 0;\n    int nsubsteps  = 10 * level;\n    realtype logdt = log10(dt);\n\n"
+            "    for (int step = 1; step < nsubsteps + 1; step++) {\n        realtype expo = logdt - (realtype)level;\n"
+            "        expo += (realtype)level * (realtype)step / (realtype)nsubsteps;\n        realtype tout = pow(10.0, expo);\n"
+            "        cvflag = CVode(cv_mem_, tout, cv_y_, " + tref + ", CV_NORMAL);\n        if (cvflag < 0) {\n            break;\n        }\n    }\n\n    return cvflag;\n}\n\n")
+
+
+def _setup_member(body):
+    return "int Naunet::PrepareIntegrator(realtype *ab, realtype t0, NaunetData *data) {\n    int cvflag;\n" + body + "\n    return NAUNET_SUCCESS;\n}\n\n"
+
+
+def _classify(lowest):
+    return f"static int Classify(int flag) {{\n    if (flag >= 0) return 0;\n    if (flag > {lowest}) return 1;\n    if (flag == -6) return 2;\n    return 3;\n}}\n\n"
+
+
+MUTANTS += [
+    {"name": "substeps-in-a-member-time-by-value", "edits": [
+        {"file": CV, "old": _LOOP, "new": "        cvflag = SubCycle(level, dt, t0);\n"},
+        {"file": CV, "old": _HEAD, "new": _subcycle("int level, realtype dt, realtype t0", "&t0") + _HEAD}], "rules": ["R3"]},
+    {"name": "interval-shortened-on-a-by-value-copy", "edits": [
+        {"file": CV, "old": _HEAD, "new": "static void Shorten(realtype dt, realtype t0) {\n    dt -= t0;\n}\n\n" + _HEAD},
+        {"file": CV, "old": "            dt -= t0;\n", "new": "            Shorten(dt, t0);\n"}], "rules": ["R3"]},
+    {"name": "recoverable-predicate-shrunk", "edits": [
+        {"file": CV, "old": _HEAD, "new": "static bool Recoverable(int flag) { return flag < 0 && flag > -4; }\n\n" + _HEAD},
+        {"file": CV, "old": "        if (cvflag < 0 && cvflag > -5) {\n", "new": "        if (Recoverable(cvflag)) {\n"}], "rules": ["R3"]},
+    {"name": "classifier-shrunk", "edits": [{"file": CV, "old": _HEAD, "new": _classify(-4) + _HEAD}] + _CLASSIFIED, "rules": ["R3"]},
+    {"name": "odeint-success-set-before-integrating", "edits": [
+        {"file": OD, "old": "    int flag = NAUNET_SUCCESS;\n\n    vector_type y", "new": "    int flag = NAUNET_FAIL;\n\n    vector_type y"},
+        {"file": OD, "old": "    try {\n        step_ = integrate_adaptive(", "new": "    try {\n        flag = NAUNET_SUCCESS;\n        step_ = integrate_adaptive("},
+        {"file": OD, "old": "        flag = NAUNET_FAIL;\n", "new": ""}], "rules": ["R4"]},
+    {"name": "setup-member-drops-a-status", "edits": [
+        {"file": CV, "old": _SETUP, "new": _CALL_SETUP},
+        {"file": CV, "old": _SOLVEHEAD, "new": _setup_member(_SETUP.replace(_CHECKED % "CVodeInit", "")) + _SOLVEHEAD}], "rules": ["R1"]},
+    {"name": "setup-member-result-ignored", "edits": [
+        {"file": CV, "old": _SETUP, "new": "    PrepareIntegrator(ab, t0, data);\n"},
+        {"file": CV, "old": _SOLVEHEAD, "new": _setup_member(_SETUP) + _SOLVEHEAD}], "rules": ["R1"]},
+    {"name": "setup-member-copies-the-state", "edits": [
+        {"file": CV, "old": _SETUP, "new": _CALL_SETUP},
+        {"file": CV, "old": _SOLVEHEAD, "new": _setup_member(_SETUP.replace("    N_VSetArrayPointer(ab, cv_y_);\n", "    realtype *ydata = N_VGetArrayPointer(cv_y_);\n    for (int i = 0; i < NEQUATIONS; i++) ydata[i] = ab[i];\n")) + _SOLVEHEAD}], "rules": ["R6"]},
+    {"name": "success-after-the-loop-unguarded", "file": CV, "old": "            // break;\n            return NAUNET_SUCCESS;\n        }\n    }\n", "new": "            break;\n        }\n    }\n    return NAUNET_SUCCESS;\n", "rules": ["R2"]},
+]
+BENIGN += [
+    {"name": "substeps-in-a-member-time-by-reference", "edits": [
+        {"file": CV, "old": _LOOP, "new": "        cvflag = SubCycle(level, dt, t0);\n"},
+        {"file": CV, "old": _HEAD, "new": _subcycle("int level, realtype dt, realtype &t0", "&t0") + _HEAD}]},
+    {"name": "substeps-in-a-member-time-by-pointer", "edits": [
+        {"file": CV, "old": _LOOP, "new": "        cvflag = this->SubCycle(level, dt, &t0);\n"},
+        {"file": CV, "old": _HEAD, "new": _subcycle("int level, realtype dt, realtype *t0", "t0") + _HEAD}]},
+    {"name": "substep-time-from-a-value-helper", "edits": [
+        {"file": CV, "old": _HEAD, "new": _SUBSTEPTIME + _HEAD},
+        {"file": CV, "old": _EXPO, "new": "            const realtype tout = SubstepTime(logdt, level, step, nsubsteps);\n"}]},
+    {"name": "substep-time-helper-inside-the-call", "edits": [
+        {"file": CV, "old": _HEAD, "new": _SUBSTEPTIME + _HEAD},
+        {"file": CV, "old": _EXPO, "new": ""},
+        {"file": CV, "old": "CVode(cv_mem_, tout, cv_y_, &t0, CV_NORMAL);", "new": "CVode(cv_mem_, SubstepTime(logdt, level, step, nsubsteps), cv_y_, &t0, CV_NORMAL);"}]},
+    {"name": "flag-predicates-as-helpers", "edits": [
+        {"file": CV, "old": _HEAD, "new": "static bool Recoverable(int flag) { return flag < 0 && flag > -5; }\nstatic bool NeedsReset(int flag) { return flag == -6; }\n\n" + _HEAD},
+        {"file": CV, "old": "        if (cvflag < 0 && cvflag > -5) {\n", "new": "        if (Recoverable(cvflag)) {\n"},
+        {"file": CV, "old": "        } else if (cvflag == -6) {\n", "new": "        } else if (NeedsReset(cvflag)) {\n"}]},
+    {"name": "flag-classified-by-a-helper-with-early-returns", "edits": [{"file": CV, "old": _HEAD, "new": _classify(-5) + _HEAD}] + _CLASSIFIED},
+    {"name": "cvode-flags-by-name", "edits": [
+        {"file": CV, "old": "        if (cvflag < 0 && cvflag > -5) {\n", "new": "        if (cvflag <= CV_TOO_MUCH_WORK && cvflag >= CV_CONV_FAILURE) {\n"},
+        {"file": CV, "old": "        } else if (cvflag == -6) {\n", "new": "        } else if (cvflag == CV_LSETUP_FAIL) {\n"}]},
+    {"name": "levels-bounded-by-named-constants", "edits": [
+        {"file": CV, "old": _HEAD, "new": "#define NAUNET_MAX_LEVEL 5\nstatic const int kStepsPerLevel = 10;\n\n" + _HEAD},
+        {"file": CV, "old": "for (int level = 1; level < 6; level++) {\n        int nsubsteps = 10 * level;", "new": "for (int level = 1; level <= NAUNET_MAX_LEVEL; level++) {\n        int nsubsteps = kStepsPerLevel * level;"}]},
+    {"name": "level-loop-as-while", "edits": [
+        {"file": CV, "old": "    for (int level = 1; level < 6; level++) {\n", "new": "    const int last = 5;\n    int level = 1;\n    while (level <= last) {\n"},
+        {"file": CV, "old": "            // break;\n            return NAUNET_SUCCESS;\n        }\n    }\n", "new": "            // break;\n            return NAUNET_SUCCESS;\n        }\n        level++;\n    }\n"}]},
+    {"name": "level-counted-from-zero", "file": CV, "old": "    for (int level = 1; level < 6; level++) {\n        int nsubsteps = 10 * level;\n", "new": "    for (int lv = 0; lv < 5; lv++) {\n        const int level = lv + 1;\n        int nsubsteps = 10 * level;\n"},
+    {"name": "substeps-counted-from-zero-std-math", "edits": [
+        {"file": CV, "old": "for (int step = 1; step < nsubsteps + 1; step++) {", "new": "for (int step = 0; step < nsubsteps; step++) {"},
+        {"file": CV, "old": "(realtype)level * (realtype)step / (realtype)nsubsteps;", "new": "(realtype)level * (realtype)(step + 1) / (realtype)nsubsteps;"},
+        {"file": CV, "old": "realtype logdt = log10(dt);", "new": "realtype logdt = std::log10(dt);"},
+        {"file": CV, "old": "realtype tout = pow(10.0, expo);", "new": "realtype tout = std::pow(10.0, expo);"}]},
+    {"name": "handle-error-wrapped-in-the-failure-test", "edits": [
+        {"file": CV, "old": "    if (cvflag >= 0) {\n        return NAUNET_SUCCESS;\n    }\n\n    fprintf(errfp_, \"CVode failed in Naunet! Flag", "new": "    if (cvflag < 0) {\n    fprintf(errfp_, \"CVode failed in Naunet! Flag"},
+        {"file": CV, "old": "    /* {% endif -%} */\n\n    return NAUNET_FAIL;\n}\n\nint Naunet::Init", "new": "    /* {% endif -%} */\n\n    return NAUNET_FAIL;\n    }\n    return NAUNET_SUCCESS;\n}\n\nint Naunet::Init"}]},
+    {"name": "success-through-a-latched-flag", "edits": [
+        {"file": CV, "old": "            // break;\n            return NAUNET_SUCCESS;\n        }\n    }\n", "new": "            fixed = true;\n            break;\n        }\n    }\n    if (fixed) {\n        return NAUNET_SUCCESS;\n    }\n"},
+        {"file": CV, "old": "    realtype dt_init = dt;\n", "new": "    realtype dt_init = dt;\n    bool fixed       = false;\n"}]},
+    {"name": "setup-in-a-member-with-early-returns", "edits": [
+        {"file": CV, "old": _SETUP, "new": _CALL_SETUP},
+        {"file": CV, "old": _SOLVEHEAD, "new": _setup_member(_SETUP) + _SOLVEHEAD}]},
+    {"name": "odeint-failed-until-the-integration-returns", "edits": [
+        {"file": OD, "old": "    int flag = NAUNET_SUCCESS;\n\n    vector_type y", "new": "    int flag = NAUNET_FAIL;\n\n    vector_type y"},
+        {"file": OD, "old": "dt, dt, observer);\n", "new": "dt, dt, observer);\n        flag = NAUNET_SUCCESS;\n"},
+        {"file": OD, "old": "        flag = NAUNET_FAIL;\n", "new": ""}]},
+    {"name": "odeint-interval-named", "edits": [
+        {"file": OD, "old": "    Observer observer(mxsteps_);\n", "new": "    Observer observer(mxsteps_);\n    const double t_start = 0.0;\n    const double t_end   = dt;\n"},
+        {"file": OD, "old": "y, 0.0, dt, dt, observer);", "new": "y, t_start, t_end, dt, observer);"}]},
+    {"name": "observer-budget-in-a-predicate-postfix-count", "edits": [
+        {"file": ODE, "old": "void Observer::operator()", "new": "static bool Exhausted(int taken, int budget) { return taken >= budget; }\n\nvoid Observer::operator()"},
+        {"file": ODE, "old": "    step_ += 1;\n    time_ = t;\n    if (step_ > mxsteps_) {", "new": "    time_ = t;\n    if (Exhausted(step_++, mxsteps_)) {"}]},
+    {"name": "wrapper-throws-in-a-helper", "edits": [
+        {"file": OD, "old": "py::array_t<double> Naunet::PyWrapSolve(", "new": "static void ThrowIfFailed(int flag) {\n    if (flag == NAUNET_FAIL) {\n        throw std::runtime_error(\"Something unrecoverable occurred\");\n    }\n}\n\npy::array_t<double> Naunet::PyWrapSolve("},
+        {"file": OD, "old": "    int flag             = Solve(abund, dt, data);\n    if (flag == NAUNET_FAIL) {\n        throw std::runtime_error(\"Something unrecoverable occurred\");\n    }\n\n    return py::array_t<double>(info.shape, abund);", "new": "    ThrowIfFailed(Solve(abund, dt, data));\n\n    return py::array_t<double>(info.shape, abund);"}]},
 ]
